@@ -718,7 +718,18 @@ def r8(rr, repo):
         a0 = U(c.args[0]) if c.args else ''
         rr.ob('the timestamp of a scanned file is its first name field divided by 1 000 000 (the inverse of the writer)', re.fullmatch(r'int\(\w+\.group\(1\)\) / 1_?000_?000', a0) is not None, mod, c, witness=a0, key='inverse-scale')
         a2 = U(c.args[2]) if len(c.args) > 2 else ''
+        if len(c.args) > 2 and isinstance(c.args[2], ast.Name):       # a local bound from the file system just before
+            b_ = [n for n in ast.walk(scan) if (isinstance(n, ast.Assign) and U(n.targets[0]) == a2) or (isinstance(n, ast.NamedExpr) and U(n.target) == a2)]
+            a2 = U(b_[0].value) if len(b_) == 1 else a2
         rr.ob('the size of a scanned file comes from the file system', 'os.stat(' in a2 and 'st_size' in a2 or 'getsize(' in a2, mod, c, witness=a2, key='size-from-fs')
+    # the directory is pruned by the writer while a reader lists it: a file may vanish between the listing and the look at its size - that must skip the file, not fail the scan
+    # (a reader restart, or the refresh inside read(), would otherwise raise FileNotFoundError although its head file and its position are fine)
+    stats = [c for c in ast.walk(scan) if isinstance(c, ast.Call) and U(c.func) in ('os.stat', 'os.path.getsize')]
+    rr.floor('looks at the size of a listed file', len(stats), 1, mod, scan)
+    for c in stats:
+        tries = [a for a in ancestors(c) if isinstance(a, ast.Try) and any(x is c for st_ in a.body for x in ast.walk(st_))]
+        caught = any(h.type is None or any(nm in U(h.type) for nm in ('FileNotFoundError', 'OSError', 'Exception')) for t in tries for h in t.handlers)
+        rr.ob('a file that vanishes between the directory listing and the look at its size is skipped (the scan does not fail)', caught, mod, c, witness=U(c)[:60] + ('' if caught else ' is not inside a try that catches FileNotFoundError'), key='scan-survives-vanishing-file')
         g = q.guards_of(c, stop=scan)
         gt = ' && '.join(U(t) for t, pol in g if pol)
         rr.ob('only regular files whose name matches the pattern are listed', 'os.path.isfile(' in gt and '.match(' in gt, mod, c, witness=gt[:120], key='scan-filter')
